@@ -729,6 +729,22 @@ type cutRegion struct {
 // legalRuns lists every run of complete siblings that the property allows to be
 // moved: runs of top-level directives (never JSIGHT itself) and runs of
 // children of an implicitly nested directive.
+func toggleCase(name string) string {
+	b := []byte(name)
+	for i, c := range b {
+		switch {
+		case c >= 'a' && c <= 'z':
+			b[i] = c - 32
+		case c >= 'A' && c <= 'Z':
+			b[i] = c + 32
+		}
+		if b[i] != c {
+			break // one letter is enough
+		}
+	}
+	return string(b)
+}
+
 func (d *Doc) legalRuns() [][2]int {
 	var out [][2]int
 	addRuns := func(kids []*Node, skipFirst int) {
@@ -894,8 +910,12 @@ func cutTextPref(text string, runs [][2]int, r *rng, baseDir string, maxDepth in
 	multi = Project{Root: root, Cwd: "/sim/cwd"}
 	byContent := map[string]string{} // dir+"\x00"+content -> file name (reuse: same file included several times)
 	perDir := map[string]int{}       // names are unique per directory only: the same spelling occurs in several directories
+	var emitNamed func(from, to int, inner []*cutRegion, dir string, self string) string
 	var emit func(from, to int, inner []*cutRegion, dir string) string
 	emit = func(from, to int, inner []*cutRegion, dir string) string {
+		return emitNamed(from, to, inner, dir, "main.jst")
+	}
+	emitNamed = func(from, to int, inner []*cutRegion, dir string, self string) string {
 		// sort inner by from
 		for i := 1; i < len(inner); i++ {
 			for j := i; j > 0 && inner[j].from < inner[j-1].from; j-- {
@@ -918,22 +938,35 @@ func cutTextPref(text string, runs [][2]int, r *rng, baseDir string, maxDepth in
 				sub = fmt.Sprintf("d%d/x", hash64(lines[c.from])%2)
 			}
 			cdir := filepath.Join(dir, sub)
-			content := emit(c.from, c.to, c.inner, cdir)
+			// a file in the directory of its includer may get the includer's name in the other letter
+			// case (Part3.jst includes part3.jst): two different files on a case-sensitive disk
+			srcKey := strings.Join(lines[c.from:c.to], "\n")
+			prefix := []string{"part", "part", "part", "Part", "PART", "..part", "p.art", "...", "part"}[hash64(srcKey)%9]
+			if sub != "" && strings.HasPrefix(prefix, "..") {
+				// after a directory the library's validator refuses "/.." even inside a longer name;
+				// that conservatism is not what this check is about
+				prefix = "part"
+			}
+			cand := fmt.Sprintf("%s%d.jst", prefix, perDir[cdir]+1)
+			if prefix == "..." {
+				cand = fmt.Sprintf("...%d", perDir[cdir]+1)
+			}
+			if sub == "" && self != "" && hash64(self+srcKey)%3 == 0 {
+				if t := toggleCase(self); t != self && t != "main.jst" {
+					if _, used := multi.Files[filepath.Join(cdir, t)]; !used {
+						cand = t
+					}
+				}
+			}
+			content := emitNamed(c.from, c.to, c.inner, cdir, cand)
 			key := cdir + "\x00" + content
 			name, ok := byContent[key]
 			if !ok {
+				if _, used := multi.Files[filepath.Join(cdir, cand)]; used {
+					cand = fmt.Sprintf("part%d_%d.jst", perDir[cdir]+1, len(multi.Files))
+				}
 				perDir[cdir]++
-				// names that only look suspicious (leading dots, letter case) are as good as any
-				prefix := []string{"part", "part", "part", "Part", "PART", "..part", "p.art", "...", "part"}[hash64(content)%9]
-				if sub != "" && strings.HasPrefix(prefix, "..") {
-					// after a directory the library's validator refuses "/.." even inside a longer name;
-					// that conservatism is not what this check is about
-					prefix = "part"
-				}
-				name = fmt.Sprintf("%s%d.jst", prefix, perDir[cdir])
-				if prefix == "..." {
-					name = fmt.Sprintf("...%d", perDir[cdir])
-				}
+				name = cand
 				byContent[key] = name
 				multi.set(filepath.Join(cdir, name), []byte(content))
 			}
